@@ -52,7 +52,7 @@ Ops ==
   \cup {[op |-> "putmany", bs |-> bs] : bs \in ManyArgs}
   \cup {[op |-> "finalize"], [op |-> "finalize_ro"], [op |-> "close"], [op |-> "discard"]}
   \cup {[op |-> "reopen", how |-> h] :
-          h \in {"same", "roots_other", "roots_codec", "roots_extra", "roots_fewer", "dpad", "version"}}
+          h \in {"same", "roots_other", "roots_codec", "roots_extra", "roots_fewer", "dpad", "dpad_far", "version"}}
 
 (* storage.StorageCar has neither PutMany, FinalizeReadOnly nor Close; "discard" for it is
    simply dropping the instance. *)
@@ -106,7 +106,9 @@ Outcomes(s, op) ==
          ELSE IF op.how = "same"
            THEN {[res |-> {"ok"}, next |-> [s EXCEPT !.phase = "open", !.fin = FALSE]]}
          ELSE IF op.how \in {"roots_fewer", "roots_codec"} /\ Len(s.roots) = 0 THEN {}
-         ELSE IF op.how = "dpad" /\ o.v1 THEN {}        \* data padding is meaningless for CARv1 output
+         \* data padding is meaningless for CARv1 output; "dpad_far" asks for a padding that puts the
+         \* data offset beyond the end of the existing file
+         ELSE IF op.how \in {"dpad", "dpad_far"} /\ o.v1 THEN {}
          ELSE {Frozen(s)}                              \* refused, file untouched
     [] OTHER -> {}
 
